@@ -347,13 +347,10 @@ Fixpoint has_overflowing_number (j : json) : bool :=
 Definition content_overflows (j : json) : bool :=
   match jget (bs "content") j with Some c => has_overflowing_number c | None => false end.
 
-(* IRoomVersion.RedactEventJSON *)
-Definition redactc (ver : bytes) (j : json) : option json :=
-  if content_overflows j then None else redact ver j.
-
-(* what referenceOfEvent hashes and signEvent signs, as a value *)
-Definition referencec (ver : bytes) (j : json) : option json :=
-  if content_overflows j then None else reference_json ver j.
+(* RedactEventJSON succeeds (used where the library checks that: the untrusted parse functions
+   after their repair, and Build through signEvent) *)
+Definition redactable (ver : bytes) (j : json) : bool :=
+  negb (content_overflows j) && is_some (redact ver j).
 
 Section Crypto.
   Variable H : bytes -> bytes.
@@ -378,7 +375,7 @@ Section Crypto.
 
   (* what referenceOfEvent hashes (and what signEvent signs) *)
   Definition reference_pre (ver : bytes) (j : json) : option bytes :=
-    option_map canon_print (referencec ver j).
+    option_map canon_print (reference_json ver j).
 
   Definition sigil_dollar : N := 36.
   (* referenceOfEvent(...).EventID *)
@@ -388,7 +385,7 @@ Section Crypto.
     | Some pre =>
         if event_format ver =? 1 then
           match jget (bs "event_id") (jdel k_unsigned (jdel k_signatures
-                   match redactc ver j with Some r => r | None => JNull end)) with
+                   match redact ver j with Some r => r | None => JNull end)) with
           | Some (JStr s) => Some s
           | _ => None
           end
@@ -486,11 +483,11 @@ Section Crypto.
     if (class =? 0) || has_underscore_key j || negb (canonical_check_ok ver j) then PErr
     else
       let j1 := fold_left (fun acc k => jdel k acc) (strip_keys class) j in
-      if negb (decodes class j1) || negb (room_check class j1) || negb (is_some (redactc ver j1)) then PErr
+      if negb (decodes class j1) || negb (room_check class j1) || negb (redactable ver j1) then PErr
       else if content_hash_ok j1 then
         let e := mk_parsed ver class j1 false None in POk e (check_fields e)
       else
-        match redactc ver j1 with
+        match redact ver j1 with
         | None => PErr
         | Some r =>
             if bytes_eqb (canon_print r) (canon_print j1) then
@@ -564,7 +561,7 @@ Section Crypto.
     else match build_json ver p eid ts origin keyid with
          | None => BErr
          | Some j =>
-             if negb (canonical_check_ok ver j) then BErr
+             if has_overflowing_number (p_content p) || negb (canonical_check_ok ver j) then BErr
              else match parse_trusted ver j false with
                   | Some e => BOk e (check_fields e)
                   | None => BErr
@@ -597,7 +594,7 @@ Section Crypto.
   (* Redact(): decodes the redacted JSON afresh, so the cached ID is dropped *)
   Definition redact_ev (e : ev) : option ev :=
     if e_redacted e then Some e
-    else match redactc (e_ver e) (e_json e) with
+    else match redact (e_ver e) (e_json e) with
          | Some r => Some (mkEv (e_ver e) (e_class e) r true (or_empty (dec_str (bs "event_id") r)))
          | None => None
          end.
